@@ -1,5 +1,6 @@
 #!/bin/bash
 # usage: confirm_mutant.sh <scratch-repo> <patch.diff> <demo.rs>
+MT=${MT:-/tmp/mt}; export MT
 # confirms: patch applies, 66 unit tests pass with it, demo fails with it and passes without it.
 R=$1; P=$2; D=$3
 cd $R || exit 2
@@ -7,13 +8,13 @@ git reset -q --hard; git clean -qfd -e target
 if ! git apply $P 2>/dev/null; then
   if ! git apply --3way $P >/dev/null 2>&1; then git reset -q --hard; echo "RESULT apply-failed"; exit 1; fi
 fi
-git diff HEAD > /tmp/mt/applied.diff
+git diff HEAD > $MT/applied.diff
 T=$(cargo test --offline --lib 2>&1 | grep "test result" | head -1)
 mkdir -p tests; cp $D tests/demo.rs
-cargo test --offline --test demo >/tmp/mt/demo_with.log 2>&1; W=$?
+cargo test --offline --test demo >$MT/demo_with.log 2>&1; W=$?
 git reset -q --hard
 mkdir -p tests; cp $D tests/demo.rs
-cargo test --offline --test demo >/tmp/mt/demo_without.log 2>&1; WO=$?
+cargo test --offline --test demo >$MT/demo_without.log 2>&1; WO=$?
 rm -rf tests; git reset -q --hard
 echo "RESULT unit=[$T] demo_with_exit=$W demo_without_exit=$WO"
-if [ $WO -ne 0 ]; then grep -E "^error|panicked|FAILED|failed" /tmp/mt/demo_without.log | head -5; fi
+if [ $WO -ne 0 ]; then grep -E "^error|panicked|FAILED|failed" $MT/demo_without.log | head -5; fi
